@@ -143,6 +143,8 @@ func runC15(c *core.Ctx) {
 
 	runR153(c)
 	runR154(c)
+	c.Rule("R15.5", "a get drains both channels of the backend handler: the loop that receives from them is left only when both are closed, and nothing returns from inside it (the handler's producer goroutine blocks forever on an unbuffered send otherwise)", 4)
+	runR155(c)
 }
 
 func runR153(c *core.Ctx) {
@@ -416,4 +418,99 @@ func runR154(c *core.Ctx) {
 		}
 		c.Check(good, "R15.4", key, c.P.Pos(dial.Pos()), "a successfully dialled socket always ends up in the returned handler", "a dialled socket can be dropped without being wrapped in the returned handler or closed")
 	}
+}
+
+func runR155(c *core.Ctx) {
+	for _, ctor := range inScopeCtors {
+		role, err := resolveOrca(c, ctor)
+		if err != nil {
+			continue
+		}
+		for _, m := range []string{"Get", "GetE"} {
+			fn := c.P.Method(role.Impl, m)
+			if fn == nil || len(fn.Blocks) == 0 {
+				continue
+			}
+			loops := ssax.Loops(fn)
+			counts := map[string]int{}
+			ssax.Instrs(fn, func(ins ssa.Instruction) {
+				sel, ok := ins.(*ssa.Select)
+				if !ok {
+					return
+				}
+				l := ssax.InnermostLoop(loops, sel.Block())
+				if l == nil {
+					return
+				}
+				key := ordinalKey(counts, core.FuncName(fn)+"#drain")
+				var chans []ssa.Value
+				for _, st := range sel.States {
+					if st.Dir == types.RecvOnly {
+						chans = append(chans, st.Chan)
+					}
+				}
+				var bad []string
+				for b := range l.Blocks {
+					for _, x := range b.Instrs {
+						if _, isRet := x.(*ssa.Return); isRet {
+							bad = append(bad, "return inside the receive loop at "+c.P.Pos(x.Pos()))
+						}
+					}
+					for _, s := range b.Succs {
+						if l.Blocks[s] {
+							continue
+						}
+						// the exit edge must be taken only when every channel is nil (closed and cleared)
+						conds := append(ssax.DomConds(b), edgeCondOf(b, s)...)
+						for _, ch := range chans {
+							okc := false
+							for _, ec := range conds {
+								bo, isBo := ec.Cond.(*ssa.BinOp)
+								if !isBo || !(ssax.IsNilConst(bo.Y) || ssax.IsNilConst(bo.X)) {
+									continue
+								}
+								x := bo.X
+								if ssax.IsNilConst(x) {
+									x = bo.Y
+								}
+								if sameChanVar(x, ch) && ((bo.Op == token.EQL && ec.True) || (bo.Op == token.NEQ && !ec.True)) {
+									okc = true
+								}
+							}
+							if !okc {
+								bad = append(bad, "the loop is left at "+c.P.Pos(firstPos(s))+" while a handler channel may still be open")
+							}
+						}
+					}
+				}
+				c.Check(len(bad) == 0, "R15.5", key, c.P.Pos(sel.Pos()), "the receive loop ends only when both handler channels are closed", strings.Join(uniq(bad), "; ")+": the handler's goroutine is left blocked on its next send and never ends")
+			})
+		}
+	}
+}
+
+// sameChanVar: x is the channel variable ch, possibly after being set to nil in this iteration (a phi of ch and nil).
+func sameChanVar(x, ch ssa.Value) bool {
+	seen := map[ssa.Value]bool{}
+	var walk func(v ssa.Value) bool
+	walk = func(v ssa.Value) bool {
+		if v == ch || ssax.IsNilConst(v) {
+			return true
+		}
+		if seen[v] {
+			return true
+		}
+		seen[v] = true
+		phi, ok := v.(*ssa.Phi)
+		if !ok {
+			return false
+		}
+		for _, e := range phi.Edges {
+			if !walk(e) {
+				return false
+			}
+		}
+		return true
+	}
+	return walk(x)
 }
